@@ -182,14 +182,14 @@ Proof.
   destruct F2 as (I2 & J2 & L2 & B2 & M2).
   (* parsing_done *)
   destruct (x_parsing_done s2) eqn:PD.
-  { inversion H; subst. eapply inv_view; [apply view_give_unit|]. destruct (c_retr_done_drops_link cfg); auto. apply inv_drop_link; auto. }
+  { inversion H; subst. eapply inv_view; [apply view_give_unit|]. destruct (c_retr_done_drops_link cfg); auto. exact (proj1 (inv_drop_link (r_link j) s2 I2)). }
   destruct (link_state (r_link j) s2) as [u|] eqn:LS.
   - (* the job has a link whose unord block exists *)
     destruct (link_state_spec _ _ _ LS) as (id & EL & Hu & Hid). rewrite EL in H. cbn [andb negb orb] in H.
     destruct (u_complete u) eqn:UC; cbn [andb negb orb] in H.
     + destruct (u_legit u) eqn:UL; cbn [andb negb orb] in H.
       * (* adopted: acts as the master *) admit.
-      * inversion H; subst. eapply inv_view; [apply view_give_unit|]. destruct (c_retr_abort_drops_link cfg); auto. apply inv_drop_link; auto.
+      * inversion H; subst. eapply inv_view; [apply view_give_unit|]. destruct (c_retr_abort_drops_link cfg); auto. exact (proj1 (inv_drop_link (Some (u_id u)) s2 I2)).
     + (* speculative *) admit.
   - destruct (r_link j) as [id|] eqn:EL; cbn [andb negb orb] in H.
     + (* dangling link: treated as speculative, the update is void *) admit.
